@@ -172,6 +172,17 @@ func (ss *Session) ref(t *Term) string {
 	return name
 }
 
+// refR renders a value-use operand: constants by the signed or unsigned reading of the comparison
+func (ss *Session) refR(t *Term, signed bool) string {
+	if t.IsConst() && t.W > 0 {
+		if signed {
+			return intLit(constIntSigned(t))
+		}
+		return new(big.Int).SetUint64(t.Val).String()
+	}
+	return ss.ref(t)
+}
+
 func (ss *Session) render(t *Term) string {
 	if ss.Mode == ModeBV {
 		var sb strings.Builder
@@ -206,9 +217,15 @@ func (ss *Session) render(t *Term) string {
 		sb.WriteByte(')')
 		return sb.String()
 	case OpEq:
-		return "(= " + ss.ref(t.Args[0]) + " " + ss.ref(t.Args[1]) + ")"
-	case OpBvSlt, OpBvUlt:
-		return "(< " + ss.ref(t.Args[0]) + " " + ss.ref(t.Args[1]) + ")"
+		if t.Args[0].W == 0 {
+			return "(= " + ss.ref(t.Args[0]) + " " + ss.ref(t.Args[1]) + ")"
+		}
+		sg := ss.lia.EqSigned(t.Args[0], t.Args[1])
+		return "(= " + ss.refR(t.Args[0], sg) + " " + ss.refR(t.Args[1], sg) + ")"
+	case OpBvSlt:
+		return "(< " + ss.refR(t.Args[0], true) + " " + ss.refR(t.Args[1], true) + ")"
+	case OpBvUlt:
+		return "(< " + ss.refR(t.Args[0], false) + " " + ss.refR(t.Args[1], false) + ")"
 	case OpBvAdd:
 		return "(+ " + ss.ref(t.Args[0]) + " " + ss.ref(t.Args[1]) + ")"
 	case OpBvSub:
